@@ -64,8 +64,16 @@ impl Unit {
 }
 
 fn parse_number_unit(i: &str) -> IResult<&str, Duration> {
-    let (i, num) = double(i)?;
-    let (i, unit) = parse_unit(i)?;
+    let (rest, num) = double(i)?;
+    // only plain decimal numbers: no sign, no exponent, neither `inf` nor `nan`
+    let number = &i[..i.len() - rest.len()];
+    if !number.bytes().all(|b| b.is_ascii_digit() || b == b'.') {
+        return Err(nom::Err::Error(nom::error::Error::new(
+            i,
+            nom::error::ErrorKind::Float,
+        )));
+    }
+    let (i, unit) = parse_unit(rest)?;
     let duration = to_duration(num, unit);
     Ok((i, duration))
 }
